@@ -43,8 +43,9 @@ import pickle as _pickle
 import pickletools as _pickletools
 
 # keys of every representation: text, bytes with the same content, a number, a pickled tuple, and the bytes key that
-# equals that tuple's serialized form (same `key` column, different `raw` flag)
-KEYPOOL = ['a', b'a', 7, (1, 2), _pickletools.optimize(_pickle.dumps((1, 2), protocol=_pickle.HIGHEST_PROTOCOL))]
+# equals that tuple's serialized form (same `key` column, different `raw` flag), and a tuple that is == to the first one and
+# hashes alike but is another key (float component): anything memoised per Python equality would alias the two
+KEYPOOL = ['a', b'a', 7, (1, 2), _pickletools.optimize(_pickle.dumps((1, 2), protocol=_pickle.HIGHEST_PROTOCOL)), (1.0, 2)]
 
 
 class Outcome(Exception):
@@ -89,11 +90,22 @@ class Ctx:
         kw.setdefault('tags', P.get('tags', True))
         if P.get('keypool'):
             kw.setdefault('keypool', KEYPOOL)
+        if P.get('cache_prelude'):
+            kw.setdefault('min_file_size', 0)
         self.s = scn_mod.Scn(w, P['N'], policy=P.get('policy', 'least-recently-stored'), **kw)
         self.c = self.s.cache
         self.T0 = self.s.T0
         self.cl = []
         self.policy = P.get('policy', 'least-recently-stored')
+        if P.get('cache_prelude'):
+            # history: an ordinary committed write of a file-backed value through the same object comes first; whatever the object
+            # remembers about it must not leak into the operation under test (e.g. be undone when that operation rolls back)
+            lim = self.c.cull_limit
+            self.c.cull_limit = 0
+            self.c.set(-987654321, b'prelude-file-value')
+            self.c.cull_limit = lim
+            self.T0 = self.s.T0 = self.s.snapshot()
+            flag('prelude')
 
     def key(self, name='key'):
         if self.P.get('keypool'):
@@ -156,6 +168,9 @@ class Ctx:
                 raise Outcome(self.fault_clauses(e))
             if not P.get('busy'):
                 raise
+            if P.get('waits'):
+                # this entry point always waits for the lock (it passes retry=True itself): it must not raise Timeout
+                raise Outcome([('C14', 'an operation that is documented to wait for the lock does not raise Timeout', False)])
             raise Outcome(self.timeout_clauses(e))
         except env.Crash:
             w.recover()
@@ -170,9 +185,11 @@ class Ctx:
                 raise Outcome(self.fault_clauses(e))
             raise
         self.end()
+        if r[0] == 'ok' and isinstance(r[1], B):
+            r = ('ok', bool(r[1]))  # a truth value computed from symbolic data (e.g. cursor.rowcount > 0): decided by a fork
         if P.get('crash') and r[0] == 'crashed':
             raise Outcome(self.crash_clauses())
-        if P.get('busy') and not P.get('retry') and self.busy_attempts[0] > 0 and self.P['busy'] not in ('later', 'always'):
+        if P.get('busy') and not P.get('retry') and not P.get('waits') and self.busy_attempts[0] > 0 and self.P['busy'] not in ('later', 'always'):
             # the lock was busy on the first attempt and retry was not requested: the call must not have succeeded
             self.add('C14', 'a call that met a busy lock without retry raises Timeout', False)
         return r
@@ -349,7 +366,12 @@ def ob_set(w, P):
     val = x.s.v_int('val', -2 ** 40, 2 ** 40)
     expire = x.opt_real('exp')
     tag = x.opt_tag() if P.get('tags', True) else None
-    st, ret = x.call(c.set, k, val, expire=expire, tag=tag)
+    if P.get('via') == 'setitem':
+        expire, tag = None, None
+        st, ret = x.call(c.__setitem__, k, val)
+        ret = True if ret is None else ret
+    else:
+        st, ret = x.call(c.set, k, val, expire=expire, tag=tag)
     now = x.times[0]
     wr = written_int(now, val, exp_cell(now, expire), tag_cell(tag), kc, rc)
     for lab, f in write_with_cull(x.T0, x.T1, kc, rc, wr, now, x.policy, zv(c.cull_limit), zv(c.size_limit), x.volume_bytes()):
@@ -472,19 +494,34 @@ def ob_touch(w, P):
 
 @directive_aware
 def ob_incr(w, P):
-    x = Ctx(w, P)
+    wide = P.get('wide')  # stored values, delta and default over the whole signed 64-bit range: results may leave it
+    x = Ctx(w, P, **({'value_bits': 63} if wide else {}))
     c = x.c
     k, kc, rc = x.key()
-    delta = x.s.v_int('delta', -2 ** 40, 2 ** 40)
+    bits = 63 if wide else 40
+    delta = x.s.v_int('delta', -2 ** bits, 2 ** bits)
     dnull = x.s.v_bool('default_null')
     dv = x.s.v_int('default', -2 ** 40, 2 ** 40)
     default = None if dnull else dv
+    if wide:
+        # a *new* counter beyond 64 bits is legitimately stored as a pickle (outside this obligation): keep default + delta inside
+        sgn = -1 if P.get('decr') else 1
+        assume(sx.zB(And(LeR(-2 ** 63, AddR(zv(dv), sx.MulR(sgn, zv(delta)))), LeR(AddR(zv(dv), sx.MulR(sgn, zv(delta))), 2 ** 63 - 1))))
     fn = c.decr if P.get('decr') else c.incr
-    st, ret = x.call(fn, k, delta, default, expect=(KeyError, TypeError))
+    st, ret = x.call(fn, k, delta, default, expect=(KeyError, TypeError, OverflowError))
     now = x.times[0]
     old = x.T0.lookup(kc, rc)
     new = x.T1.lookup(kc, rc)
     d = SubR(0, zv(delta)) if P.get('decr') else zv(delta)
+    if st == 'exc' and isinstance(ret, OverflowError):
+        # a result outside the signed 64-bit range cannot be stored: rejected with an exception, nothing altered (C01)
+        flag('incr_overflow')
+        base = sx.IfR(And(old.present, Not(dead(old, now))), old.c['value'].num, zv(default) if default is not None else 0)
+        res_ = AddR(base, d)
+        x.add('C03,C01', 'OverflowError only when the result leaves the signed 64-bit range', Or(LtR(res_, -2 ** 63), LtR(2 ** 63 - 1, res_)))
+        x.add('C03,C01', 'a rejected incr changes nothing', And(unchanged(x.T0, x.T1), spec.same_count(x.T0, x.T1)))
+        x.inv()
+        return x.result()
     if st == 'exc' and isinstance(ret, TypeError):
         # documented precondition: incr on a live item requires a numeric inline value
         x.add('C03', 'TypeError only for a live non-numeric value', And(old.present, Not(dead(old, now)), NeR(old.c['mode'].num, 1)))
@@ -516,6 +553,30 @@ def ob_incr(w, P):
             caseA = False
         x.add('C03,C04,C09', 'incr: live item incremented in place (policy metadata refreshed) or absent/expired item re-created', Or(caseA, caseB))
     x.inv()
+    return x.result()
+
+
+@directive_aware
+def ob_put_pairs(w, P):
+    """two keys of the mixed-representation pool serialized one after the other through the same Disk object (whatever it
+    remembers between calls): distinct keys get distinct (key, raw) database keys, and each comes back equal and of the
+    same type -- in particular for keys that are == and hash alike but are not the same key, e.g. (1, 2) and (1.0, 2)"""
+    x = Ctx(w, P, sym_cfg=False)
+    d = x.c._disk
+    i = int(x.s.v_int('i', 0, len(KEYPOOL) - 1))
+    j = int(x.s.v_int('j', 0, len(KEYPOOL) - 1))
+    ka, kb = KEYPOOL[i], KEYPOOL[j]
+    a = d.put(ka)
+    b = d.put(kb)
+
+    def norm(t):
+        return (bytes(t[0]) if isinstance(t[0], (bytes, bytearray, memoryview)) else t[0], bool(t[1]))
+    x.add('C02', 'distinct keys never share a database key, however the Disk object was used before', i == j or norm(a) != norm(b) or (type(norm(a)[0]) is not type(norm(b)[0])))
+    ra, rb = d.get(a[0], a[1]), d.get(b[0], b[1])
+
+    def same(u, v):
+        return type(u) is type(v) and u == v and repr(u) == repr(v)
+    x.add('C02', 'each key comes back equal and of the same type (component types included)', same(ra, ka) and same(rb, kb))
     return x.result()
 
 
@@ -890,6 +951,7 @@ FUNCS = {
     'ob_add': ['core.Cache.add', 'core.Cache._row_update', 'core.Cache._row_insert', 'core.Cache._cull', 'core.Cache._transact'],
     'ob_add_file': ['core.Cache.add', 'core.Disk.store', 'core.Disk._write', 'core.Disk.remove', 'core.Cache._transact'],
     'ob_touch': ['core.Cache.touch', 'core.Cache._transact'],
+    'ob_put_pairs': ['core.Disk.put', 'core.Disk.get'],
     'ob_incr': ['core.Cache.incr', 'core.Cache.decr', 'core.Cache._cull', 'core.Cache._transact', 'core.Disk.store'],
     'ob_get': ['core.Cache.get', 'core.Disk.fetch', 'core.Cache._transact'],
     'ob_getitem': ['core.Cache.__getitem__', 'core.Cache.read', 'core.Cache.get', 'core.Disk.fetch'],
@@ -909,7 +971,7 @@ FUNCS = {
 
 TAGS = {
     'ob_set': 'C03,C04,C08,C09', 'ob_set_file': 'C03,C08,C09,C01', 'ob_add': 'C03,C04,C08,C09', 'ob_add_file': 'C03,C04,C08',
-    'ob_touch': 'C03,C04,C08', 'ob_incr': 'C03,C04,C08,C09', 'ob_get': 'C03,C04,C08,C09', 'ob_getitem': 'C03,C04', 'ob_contains': 'C03,C04',
+    'ob_touch': 'C03,C04,C08', 'ob_incr': 'C03,C04,C08,C09,C01', 'ob_get': 'C03,C04,C08,C09', 'ob_getitem': 'C03,C04', 'ob_contains': 'C03,C04',
     'ob_pop': 'C03,C04,C08', 'ob_delete': 'C03,C04,C08', 'ob_clear': 'C03,C08', 'ob_evict': 'C03,C08', 'ob_expire': 'C03,C04,C08',
     'ob_cull': 'C09,C04,C08', 'ob_len': 'C03,C08', 'ob_iter': 'C03', 'ob_peekitem': 'C03,C04,C08', 'ob_stats': 'C03', 'ob_volume': 'C03,C09',
 }
@@ -935,6 +997,8 @@ def jobs(tier):
             for stats in (False, True):
                 add('ob_get', N=N, policy=pol, statistics=stats)
             add('ob_cull', weight=N ** 2, N=N, policy=pol, batch=1)
+        add('ob_incr', weight=N ** 2, must=['incr_overflow'], N=N, policy='least-recently-stored', wide=True, no_cull=True)
+        add('ob_incr', weight=N ** 2, must=['incr_overflow'], N=N, policy='none', wide=True, decr=True, no_cull=True)
         add('ob_get', N=N, policy='least-recently-used', expire_time=True, tag=True)
         add('ob_get', N=N, policy='least-recently-stored', expire_time=True)
         add('ob_get', N=N, policy='least-recently-stored', tag=True)
@@ -966,6 +1030,7 @@ def jobs(tier):
                         ('ob_getitem', {'via': 'getitem'})):
         out.append(dict(id=func[3:] + '.mixedkeys', func=func, params=dict(N=2, keypool=True, kinds=('int',), no_cull=True, tags=False, **extra), tags=['C02', 'C03'], functions=FUNCS[func] + ['core.Disk.put'],
                         weight=30, must_reach=['mixed_keys']))
+    out.append(dict(id='put.pairs.mixedkeys', func='ob_put_pairs', params=dict(N=1, kinds=('int',)), tags=['C02'], functions=FUNCS['ob_put_pairs'], weight=2))
     out.append(dict(id='iter.mixedkeys', func='ob_iter', params=dict(N=2, keypool=True, kinds=('int',), how='iter'), tags=['C02', 'C03'], functions=FUNCS['ob_iter'], weight=10))
     for how in ('iterkeys', 'iterkeys_rev', 'reversed'):
         out.append(dict(id='%s.mixedkeys' % how, func='ob_iter', params=dict(N=2, keypool=True, kinds=('int',), how=how), tags=['C02', 'C03'], functions=FUNCS['ob_iter'], weight=10))
@@ -994,6 +1059,14 @@ def jobs(tier):
                         functions=FUNCS['ob_get'], weight=2, must_reach=['timeout_raised']))
         out.append(dict(id='get.busy.retry.%s.%s' % (SHORT[pol], stats), func='ob_get', params=dict(N=NB, busy=1, retry=True, policy=pol, statistics=stats), tags=['C14'],
                         functions=FUNCS['ob_get'], weight=2, must_reach=['lock_busy'], all_clauses=True))
+    for pol, stats in (('least-recently-used', False), ('least-frequently-used', False), ('least-recently-stored', True)):
+        out.append(dict(id='getitem.busy.waits.%s.%s' % (SHORT[pol], stats), func='ob_getitem', params=dict(N=NB, busy=1, waits=True, via='getitem', policy=pol, statistics=stats), tags=['C14'],
+                        functions=FUNCS['ob_getitem'], weight=2, must_reach=['lock_busy'], all_clauses=True))
+    for func, extra in (('ob_incr', {}), ('ob_peekitem', {'last': True}), ('ob_delete', {'via': 'delitem'}), ('ob_pop', {}), ('ob_getitem', {'via': 'getitem'})):
+        out.append(dict(id='%s.prelude' % func[3:], func=func, params=dict(N=1, cache_prelude=True, kinds=('int',), no_cull=True, **extra), tags=['C03', 'C08'], functions=FUNCS[func] + ['core.Cache._transact'],
+                        weight=6, must_reach=['prelude']))
+    for func, via in (('ob_set', 'setitem'), ('ob_delete', 'delitem')):
+        out.append(dict(id='%s.busy.waits' % via, func=func, params=dict(N=NB, busy=1, waits=True, via=via), tags=['C14'], functions=FUNCS[func], weight=4, must_reach=['lock_busy'], all_clauses=True))
     for func, extra in (('ob_get', {}), ('ob_getitem', {'via': 'getitem'}), ('ob_contains', {}), ('ob_len', {}), ('ob_iter', {'how': 'iter'}), ('ob_iter', {'how': 'iterkeys'})):
         out.append(dict(id=func[3:] + '.lockfree.' + '.'.join(extra.values()), func=func, params=dict(N=NB, busy='always', **extra), tags=['C14'], functions=FUNCS[func], weight=1, all_clauses=True))
     for func in ('ob_set', 'ob_set_file', 'ob_add_file', 'ob_incr', 'ob_pop', 'ob_delete', 'ob_touch', 'ob_clear', 'ob_expire'):
@@ -1003,8 +1076,7 @@ def jobs(tier):
         out.append(dict(id=func[3:] + '.kill', func=func, params=dict(N=NB, crash=True, page=1), tags=['C07'], functions=FUNCS[func] + ['core.Cache._transact'],
                         weight=60, must_reach=['crashed']))
     for N in big:
-        add('ob_set', weight=N ** 3, N=N, policy='least-recently-stored')
-        add('ob_set', weight=N ** 3, N=N, policy='least-frequently-used')
+        add('ob_set', weight=N ** 3, N=N, policy='least-recently-stored', kinds=('int',))  # four rows: in-database values only (file-backed rows at N <= 3)
         add('ob_cull', weight=N ** 2, N=N, policy='least-recently-used', batch=2)
         for page in (1, 2, 3):
             add('ob_expire', N=N, page=page)
